@@ -39,6 +39,12 @@ type c17FileSpec struct {
 	// ShortSource: the source file is one byte shorter on disk than the manifest
 	// says (it shrank after the scan): the read of its last chunk fails
 	ShortSource bool `json:"short_source,omitempty"`
+	// late-verdict family (c17stall.go) only: upper bound of the verdict hold (0 = 200 ms), pause between the
+	// release of the hold and the return of the hook (so that the worker's markChunkDone comes first), and how
+	// long the HoldK-th chunk frame is kept in flight at send.chunk.beforeFrame (longer than the dispatcher's idle poll)
+	HoldCapMs   int `json:"hold_cap_ms,omitempty"`
+	HoldLagMs   int `json:"hold_lag_ms,omitempty"`
+	FrameHoldMs int `json:"frame_hold_ms,omitempty"`
 }
 
 type c17Trace struct {
@@ -127,6 +133,10 @@ func c17InstallHooks() {
 				time.Sleep(time.Duration(x%uint64(r.jitterUs)) * time.Microsecond)
 			}
 		}
+		if r.spec.FrameHoldMs > 0 && n == r.spec.HoldK {
+			// keep this chunk in flight across an idle poll of the dispatcher
+			time.Sleep(time.Duration(r.spec.FrameHoldMs) * time.Millisecond)
+		}
 		if r.spec.HoldOn == "enter" && n == r.spec.HoldK {
 			// let the verdict land while this chunk is in flight
 			select {
@@ -166,9 +176,16 @@ func c17InstallHooks() {
 		r.hashOnce.Do(func() { close(r.hashHit) })
 		if r.spec.HoldOn != "" && r.spec.HoldK > 0 {
 			t0 := time.Now()
+			capMs := 200
+			if r.spec.HoldCapMs > 0 {
+				capMs = r.spec.HoldCapMs
+			}
 			select {
 			case <-r.holdCh:
-			case <-time.After(200 * time.Millisecond):
+			case <-time.After(time.Duration(capMs) * time.Millisecond):
+			}
+			if r.spec.HoldLagMs > 0 {
+				time.Sleep(time.Duration(r.spec.HoldLagMs) * time.Millisecond)
 			}
 			r.mu.Lock()
 			r.heldMs = time.Since(t0).Milliseconds()
@@ -865,6 +882,30 @@ func c17Judge(rec *c17FileRec, wire *c17Wire, completed bool) (finds []c17Findin
 			if held {
 				tags = append(tags, "frame-while-verdict-held")
 			}
+			// the verdict was released only after every first-pass chunk had been handed out and written:
+			// nothing but a later visit of the dispatcher can end the file (or hand out the re-send)
+			if len(R) > 0 {
+				late, first := true, 0
+				for i := 0; i < in.N; i++ {
+					need := !in.Report || pSeq == 0 || !in.bit(i) || i >= in.fsf()
+					if need && (len(T[i]) == 0 || T[i][0] > rSeq) {
+						late = false
+					}
+				}
+				for i, ts := range T {
+					for j, s := range ts {
+						if s < rSeq {
+							first++
+							if j >= len(A[i]) || A[i][j] > rSeq {
+								late = false
+							}
+						}
+					}
+				}
+				if late && first > 0 {
+					tags = append(tags, c17TagVerdictAfterFrame)
+				}
+			}
 		}
 	}
 	return
@@ -890,6 +931,12 @@ func c17PartA(e *Env) {
 			traces = append(traces, tr)
 		}
 	}
+	// fourth family: the verdict arrives after the last chunk was written while other workers idle (c17stall.go);
+	// run first, so that a sender that stops coming back to such a file is confirmed early
+	nLate := e.Pick(100, 400)
+	traces = append(c17GenLateVerdictTraces(e, nLate, len(traces)), traces...)
+	lateDone, lateSkipped, lateMulti := 0, 0, 0
+	lateByVerify := map[string]int{}
 	bobs := newC17BoundaryObs()
 	lp, err := vk.NewListenerPool(16, 8*time.Second)
 	if err != nil {
@@ -911,6 +958,13 @@ func c17PartA(e *Env) {
 	var senderErrs []string
 	vk.ParallelDo(len(traces), 16, func(i int) {
 		tr := traces[i]
+		if tr.Class == c17ClassLateVerdict && c17StallConfirmed.Load() {
+			// one confirmed execution decides the run: the remaining traces of the family would each end at the watchdog
+			mu.Lock()
+			lateSkipped++
+			mu.Unlock()
+			return
+		}
 		res := c17RunTrace(e, lp, tr)
 		e.R.Eval()
 		if res.Setup != "" {
@@ -938,8 +992,20 @@ func c17PartA(e *Env) {
 				if rec.spec.Pattern != "" {
 					bobs.note(rec.spec, tags, leftOut)
 				}
+				for _, t := range tags {
+					if t == c17TagVerdictAfterFrame && tr.Streams >= 2 {
+						lateMulti++
+						lateByVerify[rec.spec.In.Verify]++
+					}
+				}
+				if tr.Class == c17ClassLateVerdict && f == 0 {
+					lateDone++
+				}
 			}
 			mu.Unlock()
+			if res.Completed && tr.Class == c17ClassLateVerdict && f == 0 && sig != "" {
+				e.R.Distinct(fmt.Sprintf("a-late-verdict:%s/w%d/%s|%s", rec.spec.In.String(), tr.Streams, rec.spec.HoldOn, sig))
+			}
 			if res.Completed && sig != "" {
 				e.R.Distinct("a:" + rec.spec.In.String() + "|" + sig)
 			}
@@ -1003,7 +1069,7 @@ func c17PartA(e *Env) {
 				e.R.Count("a_trace_watchdog")
 				// a watchdog alone is never a verdict of this property; files that are never begun although
 				// every begun file was acknowledged are one under the bounded-progress rule (c17rto.go)
-				if !c17NeverBegunVerdict(e, lp, tr, res) {
+				if !c17StalledFileVerdict(e, lp, tr, res) && !c17NeverBegunVerdict(e, lp, tr, res) {
 					e.R.Inconcl(msg)
 				}
 			} else {
@@ -1026,6 +1092,14 @@ func c17PartA(e *Env) {
 	e.R.SetExtra("a_observations", tagCount)
 	e.R.SetExtra("a_files_by_report_timing", timingCount)
 	e.R.SetExtra("a_resume_grace_ms", transfer.VerifC17ResumeGrace().Milliseconds())
+	e.R.SetExtra("a_late_verdict_family", map[string]any{"traces": nLate, "completed": lateDone, "skipped_after_confirmed_stall": lateSkipped,
+		"files_ended_although_verdict_came_after_last_first_pass_frame_with_2+_workers": lateMulti, "of_these_by_verification_outcome": lateByVerify,
+		"stalled_file_confirmed": c17StallConfirmed.Load()})
+	if !c17StallConfirmed.Load() {
+		// the class the stalled-file clause is about must have been produced (and ended) often enough
+		e.R.Require(lateMulti >= e.Pick(30, 120) && lateByVerify["right"] >= e.Pick(10, 40) && lateByVerify["wrong"] >= e.Pick(10, 40),
+			fmt.Sprintf("C17(a): too few files with >= 2 workers whose verdict came after the last first-pass frame (%d, by outcome %v)", lateMulti, lateByVerify))
+	}
 	e.R.SetExtra("hook_hits", verifhook.AllHits())
 	bobs.report(e)
 	e.R.SetExtra("a_wall_s", time.Since(start).Seconds())
